@@ -250,6 +250,13 @@ func (ps *specParser) typeName() string {
 	if n.kind != "id" {
 		ps.fail("type name expected, found %q", n.text)
 	}
+	if n.text == "array" && ps.isOp("[") {
+		// ghost array type: array[Idx]Elem
+		ps.p++
+		idx := ps.typeName()
+		ps.expect("]")
+		return "array[" + idx + "]" + ps.typeName()
+	}
 	sb.WriteString(n.text)
 	if ps.isOp(".") {
 		ps.p++
